@@ -43,6 +43,61 @@ def memVec (exact : Bool) (n : Nat) (l : List Vec) (v : Vec) : Bool :=
 def backupSize (m : Model) (τ : Rat) (Γ : List Vec) : Nat :=
   (List.range m.A).foldl (fun acc a => acc + (List.range m.O).foldl (fun p o => p * (projList m τ Γ a o).length) 1) 0
 
+/-- Gaussian elimination over ℚ on an n×n system (rows = coefficient list ++ [rhs]); `none` when singular. Executable helper, not a model. -/
+def solveLin (n : Nat) (rows : Array (Array Rat)) : Option (Array Rat) := Id.run do
+  let mut a := rows
+  for c in [0:n] do
+    -- find pivot
+    let mut piv : Option Nat := none
+    for r in [c:n] do
+      if piv.isNone && (a.getD r #[]).getD c 0 != 0 then piv := some r
+    match piv with
+    | none => return none
+    | some p =>
+      let rp := a.getD p #[]
+      let rc := a.getD c #[]
+      a := (a.setIfInBounds p rc).setIfInBounds c rp
+      let pv := rp.getD c 0
+      let rowc := rp.map (· / pv)
+      a := a.setIfInBounds c rowc
+      for r in [0:n] do
+        if r != c then
+          let rr := a.getD r #[]
+          let f := rr.getD c 0
+          if f != 0 then
+            a := a.setIfInBounds r ((List.range (n+1)).map (fun j => rr.getD j 0 - f * rowc.getD j 0)).toArray
+  return some ((List.range n).map (fun i => (a.getD i #[]).getD n 0)).toArray
+
+/-- all sublists of length k -/
+def sublistsLen {α} : Nat → List α → List (List α)
+  | 0, _ => [[]]
+  | _+1, [] => []
+  | k+1, x :: xs => (sublistsLen k xs).map (x :: ·) ++ sublistsLen (k+1) xs
+
+/-- vertices of the partition of the simplex induced by the upper envelope of Γ (points where S independent constraints among
+    "plane i = plane j" and "x_d = 0" are active and the chosen planes are maximal), corners excluded -/
+def partitionVertices (S : Nat) (Γ : List Vec) : List Vec := Id.run do
+  let n := Γ.length
+  let G := Γ.toArray
+  let mut out : List Vec := []
+  for nd in [0:S-1] do                       -- number of boundaries fixed (S-1 would give corners)
+    for D in sublistsLen nd (List.range S) do
+      for Pl in sublistsLen (S - nd) (List.range n) do
+        match Pl with
+        | [] => pure ()
+        | p0 :: rest =>
+          let a0 := G.getD p0 #[]
+          let rowsEq := rest.map (fun pj => ((List.range S).map (fun s => a0.get s - (G.getD pj #[]).get s) ++ [0]).toArray)
+          let rowsD := D.map (fun d => ((List.range S).map (fun s => if s == d then (1 : Rat) else 0) ++ [0]).toArray)
+          let rowSum := ((List.range S).map (fun _ => (1 : Rat)) ++ [1]).toArray
+          match solveLin S (rowsEq ++ rowsD ++ [rowSum]).toArray with
+          | none => pure ()
+          | some x =>
+            if (List.range S).all (fun s => decide (0 ≤ x.getD s 0)) then
+              let e := env S Γ x
+              if dot S x a0 == e && !(out.any (fun y => y == x)) then out := x :: out
+  return out
+
 def extraBeliefs (S : Nat) : List Vec :=
   -- centroid and the beliefs proportional to (1,2,…,S) and (S,…,2,1): not dyadic for S = 3
   let c : Vec := mkVec S (fun _ => 1 / (S : Rat))
@@ -67,7 +122,7 @@ def vf : P String := do
   if !(validB m) then return "skip invalid_model"
   if !(sepB m τ) then return "skip ill_conditioned"
   let exact := dyadic && isPow2 m.O && h ≤ 3
-  let v : Verdict := { tag := s!"vf h{h}" ++ (if exact then " exact" else " approx") }
+  let v : Verdict := { tag := s!"vf h{h} S{m.S}" ++ (if exact then " exact" else " approx") }
   -- shape: one list per timestep 0..h, first list is the single zero vector
   let v := v.failIf (lists.length != h + 1) s!"{solver} wrong_number_of_timesteps {lists.length}"
   let last : List Vec := (lists.getLastD []).map (·.2)
@@ -94,7 +149,11 @@ def vf : P String := do
       t := t + 1
     return v
   -- (ii) the returned surface against the property's definition at corners, edge points, interior points, random dyadic beliefs
-  let allB := bs ++ extraBeliefs m.S
+  -- … and at every vertex of the partition of the simplex induced by the returned surface (exact rational vertex enumeration).
+  -- Together with clause (i) this is a complete test of the returned surface: expectimax is convex and ≥ the surface everywhere,
+  -- so if it equals the (linear) surface at all vertices of a region it equals it on the whole region.  (Argued, not proved in Lean.)
+  let verts := if last.length ≤ 24 then partitionVertices m.S last else []
+  let allB := bs ++ extraBeliefs m.S ++ verts
   let v := Id.run do
     let mut v := v
     for b in allB do
@@ -104,7 +163,9 @@ def vf : P String := do
         let e := expectimax m h b
         let i := env m.S last b
         if !(closeQ tol9 i e) then
-          let kind := if i < e then "value_below_expectimax" else "value_above_expectimax"
+          -- the state-count class is part of the kind so that a finding known for S ≥ 3 does not mask a failure on S = 2
+          let sfx := if m.S ≤ 2 then "_S2" else ""
+          let kind := (if i < e then "value_below_expectimax" else "value_above_expectimax") ++ sfx
           v := v.failIf true s!"{solver} {kind} b=[{showVec b}] impl={ratStr i} expectimax={ratStr e}"
         else if exact && i != e then
           v := v.diffIf true s!"{solver} value_not_bit_exact b=[{showVec b}] impl={ratStr i} expectimax={ratStr e}"
